@@ -88,10 +88,16 @@ fn work_dir() -> PathBuf {
     let _ = std::fs::create_dir_all(&p);
     p
 }
-fn one_run(rev: &Rev, dir: &Path, fresh: bool) -> Result<Result<(), String>, String> {
-    if fresh {
+fn one_run(rev: &Rev, dir: &Path, fresh: bool, fsize: Option<u64>) -> Result<Result<(), String>, String> {
+    if fresh || fsize.is_some() {
         let exe = std::env::current_exe().map_err(|e| e.to_string())?;
-        let o = std::process::Command::new(exe).args(["one", "--dir", &dir.to_string_lossy(), "--rev", rev.name]).output().map_err(|e| e.to_string())?;
+        let mut cmd = std::process::Command::new(exe);
+        cmd.args(["one", "--dir", &dir.to_string_lossy(), "--rev", rev.name]);
+        if let Some(l) = fsize {
+            // the storage fault "disk full": the child may not grow any file beyond l bytes (EFBIG, as ENOSPC would)
+            cmd.args(["--fsize", &l.to_string()]);
+        }
+        let o = cmd.output().map_err(|e| e.to_string())?;
         match o.status.code() {
             Some(0) => Ok(Ok(())),
             Some(1) => Ok(Err(String::from_utf8_lossy(&o.stdout).trim().to_string())),
@@ -143,9 +149,22 @@ fn exec(h: &History, revs: &[Rev]) -> HistOut {
             }
             continue;
         }
+        // "full:<revision>:<bytes>": a run of <revision> while the disk is full (no file may grow beyond <bytes>)
+        let (rn_full, fsize): (String, Option<u64>) = match rn.strip_prefix("full:") {
+            Some(rest) => {
+                let mut it = rest.split(':');
+                let r = it.next().unwrap_or("").to_string();
+                (r, Some(it.next().and_then(|x| x.parse().ok()).unwrap_or(0)))
+            }
+            None => (rn.clone(), None),
+        };
+        let rn = &rn_full;
         let Some(rev) = rev_by_name(revs, rn) else { continue };
         if rev.chain != h.chain {
             continue;
+        }
+        if fsize.is_some() {
+            out.probes.push("run_with_full_disk");
         }
         let before = list_dir(&dir);
         // expected result by the model
@@ -160,7 +179,7 @@ fn exec(h: &History, revs: &[Rev]) -> HistOut {
                 }
             }
         }
-        let got = one_run(rev, &dir, h.fresh_process);
+        let got = one_run(rev, &dir, h.fresh_process, fsize);
         out.runs_done += 1;
         let got = match got {
             Ok(g) => g,
@@ -171,8 +190,32 @@ fn exec(h: &History, revs: &[Rev]) -> HistOut {
         };
         let after = list_dir(&dir);
         hh.str(rn);
+        if let Some(l) = fsize {
+            hh.u64(l);
+        }
         hh.str(if got.is_ok() { "ok" } else { "err" });
-        out.outcomes.push(format!("{}:{}", rn, if got.is_ok() { "ok" } else { "err" }));
+        out.outcomes.push(format!("{}{}:{}", if fsize.is_some() { "full/" } else { "" }, rn, if got.is_ok() { "ok" } else { "err" }));
+        if fsize.is_some() && got.is_err() && expect.is_ok() {
+            // the run failed because the disk was full (legitimate): whatever it left behind for versions that had
+            // no record yet may be incomplete - later runs over those records may fail, like over a torn file.
+            // A run that REPORTS SUCCESS on a full disk gets no such allowance: its records must be complete.
+            out.probes.push("full_disk_run_failed");
+            for v in 0..=rev.latest {
+                if !recorded.contains_key(&v) {
+                    torn.insert(v);
+                }
+            }
+            for v in 0..=rev.latest {
+                let f = format!("savefile_{}_{}.schema", tn, v);
+                if after.contains_key(&f) && !recorded.contains_key(&v) {
+                    recorded.insert(v, rn.clone());
+                }
+            }
+            continue;
+        }
+        if fsize.is_some() && got.is_ok() {
+            out.probes.push("full_disk_run_succeeded");
+        }
         let same_as_prev = i > 0 && h.runs[i - 1] == *rn;
         if same_as_prev {
             out.probes.push("same_revision_twice");
@@ -269,6 +312,17 @@ fn gen_history(seed: u64, revs: &[Rev], thorough: bool) -> History {
         let at = rng.range(1, runs.len() as u64 - 1) as usize;
         runs.insert(at, format!("tear:{}:{}", rng.below(3), rng.below(1000)));
     }
+    if rng.chance(1, 6) {
+        // one run happens while the disk is full; half the time the same revision runs again right afterwards
+        let at = rng.below(runs.len() as u64) as usize;
+        if !runs[at].contains(':') {
+            let name = runs[at].clone();
+            runs[at] = format!("full:{}:{}", name, *rng.pick(&[0u64, 1, 8, 16, 17, 64, 100, 200, 400, 1000, 4096]));
+            if rng.chance(1, 2) {
+                runs.insert(at + 1, name);
+            }
+        }
+    }
     let start = if chain == "argv2" && rng.chance(2, 3) { "earlier-build" } else { "empty" };
     History { chain: chain.to_string(), start: start.into(), runs, fresh_process: thorough && rng.chance(1, 8), seed }
 }
@@ -284,6 +338,13 @@ fn main() {
             let dir = arg(&args, "--dir").expect("--dir");
             let rn = arg(&args, "--rev").expect("--rev");
             let rev = rev_by_name(&revs, &rn).expect("revision");
+            if let Some(l) = arg(&args, "--fsize").and_then(|s| s.parse::<u64>().ok()) {
+                unsafe {
+                    libc::signal(libc::SIGXFSZ, libc::SIG_IGN);
+                    let lim = libc::rlimit { rlim_cur: l as libc::rlim_t, rlim_max: l as libc::rlim_t };
+                    libc::setrlimit(libc::RLIMIT_FSIZE, &lim);
+                }
+            }
             match (rev.verify)(&dir) {
                 Ok(()) => std::process::exit(0),
                 Err(e) => {
